@@ -192,6 +192,20 @@ static void on_destruct(var obj, int64_t id) {
     registry_walk("inside a destructor during a sweep");
     vh_eval();
     if (mem(gc, obj)) { vh_violation(K("registry:object-being-finalised-still-registered"), "%p is being finalised by the sweep and is still registered", obj); }
+    /* what mem answers for the other objects this sweep has set aside (white-box: its pending list) is what the
+       registry table says about them -- they left the table before the first destructor ran */
+    static unsigned tick;
+    if ((tick++ & 3) == 0 && gc->freelist != NULL && gc->freenum > 0) {
+      for (int k = 0; k < 2; k++) {
+        var p = (var)((uintptr_t)gc->freelist[(tick * 7u + (unsigned)k * 13u) % gc->freenum] & ~(uintptr_t)1);
+        if (p == NULL) { continue; }
+        int in_table = 0;
+        for (size_t i = 0; i < gc->nslots; i++) { if (gc->entries[i].hash != 0 && gc->entries[i].ptr == p) { in_table = 1; break; } }
+        vh_eval();
+        if ((mem(gc, p) != 0) != in_table) { vh_violation(K("registry:mem-disagrees-with-the-table-during-a-sweep"), "inside a destructor run by the sweep: mem(gc, %p) is %d for an object on the sweep's list, the registry table says %d", p, (int)mem(gc, p), in_table); }
+        vh_count("mem_queries_about_objects_set_aside_by_the_running_sweep");
+      }
+    }
   }
 }
 
